@@ -355,6 +355,9 @@ func TestVerifC20(t *testing.T) {
 		report(c, res, src, o, nil, map[string]any{"shape": shape, "depth": d})
 	})
 
+	// ---- extension families (ext_test.go): keyword substitution, cuts, file I/O, node and token API
+	runExtFamilies(t)
+
 	kit.End()
 }
 
